@@ -282,7 +282,7 @@ def judge(m: Model, s: str, id_type: str, out: Outcome, variant: bool) -> Verdic
     in_enc = m.needs_encoding(s, id_type)
     identity = in_bad is None and not in_res and in_pat is None and not in_enc
     nontrivial = (not identity) or variant
-    classes = [f"{lang}.id.{id_type}", "cfg.override" if m.cfg else "cfg.default"]
+    classes = [f"{lang}.id.{id_type}", "cfg.override" if m.cfg else "cfg.default"] + (["cfg.override.reserved_identifiers"] if m.cfg and "reserved_identifiers" in m.cfg else [])
     if identity:
         classes.append(f"{lang}.in.already_valid_unreserved")
     if in_res:
@@ -813,8 +813,16 @@ def override_case_strategy(words):
     def case(draw):
         lang = draw(st.sampled_from(LANGS))
         c = draw(cfg)
+        extra: typing.List[str] = []
+        if draw(st.integers(0, 2)) == 0:
+            # user-extended reserved word list (lang/_common.py documents overriding `reserved_identifiers`): the configured
+            # words plus 1..3 further identifiers, which are then among the inputs.  Only the affixes may differ otherwise, so
+            # language objects that differ in nothing but this list meet in one process.
+            extra = draw(st.lists(st.sampled_from(["payload", "a", "zX", "value_9", "Z", "x0", "_E"]), min_size=1, max_size=3, unique=True))
+            c = dict(c) if draw(st.booleans()) else {}
+            c["reserved_identifiers"] = get_model(lang, None).configured_reserved + extra
         m = get_model(lang, c)
-        base = draw(st.lists(input_strategy(words), min_size=1, max_size=4))
+        base = draw(st.lists(input_strategy(words), min_size=1, max_size=4)) + extra
         items = []
         for s in base:
             deco = draw(st.sampled_from(["", "strop", "pre", "suf", "enc"]))
@@ -1015,6 +1023,7 @@ def run(ctx: core.Ctx):
         ctx.require(f"{lang}.out.not_plain_strop", 100)
         ctx.require(f"cc.{lang}.tokens_compiled", 2000)
     ctx.require("cfg.override", 10000)
+    ctx.require("cfg.override.reserved_identifiers", 500)
     ctx.require("det.shards_compared", 20)
 
 
